@@ -40,10 +40,10 @@ Theorem C07_source_generic_validate : forall now (cd : claims_data) (vr : list g
   SrcValidateClaims.V2.GenericClaims_Validate (cd_exp cd) (cd_nbf cd) now vr = vr ++ map SrcValidateClaims.goi (v_generic now cd).
 Proof. exact vc_generic. Qed.
 Print Assumptions C07_source_generic_validate.
+(* user claims: the standard fields, the permissions, the limits (Limits.Validate is translated too: net.ParseCIDR and
+   time.LoadLocation are unknown functions of their text, here the model's judgements) and the issuer account *)
 Theorem C07_source_user_validate : forall role_of cidr_ok hhmmss_ok tz_ok now (cd : claims_data) (u : user) (resp_nil : bool) (vr : list go_issue),
-  SrcValidateClaims.V2.UserClaims_Validate (is_acct role_of) now (cd_exp cd) (cd_nbf cd) (us_issuer_account u)
-    (map SrcValidateClaims.goi (v_user_limits cidr_ok hhmmss_ok tz_ok (us_limits u)))
-    (p_allow (perm_pub (us_perms u))) (p_deny (perm_pub (us_perms u))) resp_nil (p_allow (perm_sub (us_perms u))) (p_deny (perm_sub (us_perms u))) vr
+  src_user_claims_validate role_of cidr_ok hhmmss_ok tz_ok now cd u resp_nil vr
   = vr ++ map SrcValidateClaims.goi (v_user_claims now role_of cidr_ok hhmmss_ok tz_ok cd u).
 Proof. exact vc_user_claims. Qed.
 Print Assumptions C07_source_user_validate.
